@@ -317,19 +317,24 @@ def search(ctx):
     m = ctx.n(5, 60)
     for i in range(m):
         N = int(rng.integers(60, 161))
+        # detectors are rarely square: wide, tall and square ones in turn
+        Nx, Ny = [(N, N), (N, int(N * rng.uniform(1.2, 1.6))), (int(N * rng.uniform(1.2, 1.6)), N)][i % 3]
         sp = 0.1
-        cx, cy = [float(rng.uniform(0.2 * N, 0.8 * N)) for _ in range(2)]
+        cx, cy = float(rng.uniform(0.25 * Nx, 0.75 * Nx)), float(rng.uniform(0.25 * Ny, 0.75 * Ny))
         r, nidx, z = float(rng.uniform(0.4, 0.9)), float(rng.uniform(1.45, 1.65)), float(rng.uniform(8, 20))
-        ctx.tried("center_find", (N, round(cx, 2), round(cy, 2)))
-        det = detector_grid(N, sp)
+        ctx.tried("center_find", (Nx, Ny, round(cx, 2), round(cy, 2)))
+        det = detector_grid((Nx, Ny), sp)
         # a cropped hologram keeps its coordinates: the grid need not start at the origin, nor at equal x and y
         ox, oy = (0.0, 0.0) if i % 2 else (float(rng.integers(0, 60)) * sp, float(rng.integers(0, 60)) * sp)
         det = det.assign_coords(x=det.x + ox, y=det.y + oy)
         holo = calc_holo(det, Sphere(n=nidx, r=r, center=(ox + cx * sp, oy + cy * sp, z)), medium_index=1.33, illum_wavelen=0.66,
                          illum_polarization=(1, 0))
-        got = center_find(holo)
+        info = dict(kind="center", shape=[Nx, Ny], center=[cx, cy], origin=[ox, oy], r=r, n=nidx, z=z)
+        got = impl_call(lambda: center_find(holo))
+        if isinstance(got, tuple) and len(got) == 2 and got[0] == "err":
+            ctx.violation("C18:center-find-raises:%s" % got[1], "centre finder raised %s on a %dx%d hologram" % (got[1], Nx, Ny), info)
+            continue
         err = math.hypot(got[0] - cx, got[1] - cy)
-        info = dict(kind="center", N=N, center=[cx, cy], origin=[ox, oy], r=r, n=nidx, z=z)
         if not (err <= 1.0):
             ctx.violation("C18:center-find", "centre finder off by %.2f px" % err, dict(got=list(map(float, got)), **info))
         pri = make_center_priors(holo)
